@@ -15,7 +15,7 @@ LEVEL = "exploration"
 LEVEL_TEXT = ("All short strings over the terminator alphabet x all offsets are enumerated, and tens of thousands of erroneous "
               "documents (syntax, validation, execution errors; location offsets) are produced on the real code; every location "
               "observed at the API is compared with a direct line/column scan (R2). Exhaustive on the short-string sub-space only.")
-LEVEL_NOTE = "trusted: R2 (direct scan for LF, CR LF, CR in vf/ref/lexer.py) and R1 token starts; offsets strictly inside a CR LF pair are excluded (no API yields them)"
+LEVEL_NOTE = "trusted: R2 (direct scan for LF, CR LF, CR in vf/ref/lexer.py) and R1 token starts; an offset strictly inside a CR LF pair counts the CR as the terminator before it (no token or error starts there, but get_location accepts any offset)"
 TECHNIQUE = "runtime monitoring: differential oracle (direct line/column scan) on locations observed at the API, enumerated + generated erroneous documents"
 RULE = ("(A) every string up to length 5 (quick) / 6 (thorough) over {a space LF CR U+000C U+0085 U+2028 # \" {} x every offset 0..len: "
         "Source.get_location / get_location vs R2, token line/column vs R2(token.start); (B) generated and mutated sources: location "
@@ -44,9 +44,10 @@ def mech_loc(s, off):
 
 
 def check_offset(ctx, source, s, off, case):
-    if R.inside_crlf(s, off):
-        return
+    # an offset between the CR and the LF of a CR LF pair has one terminator (the CR) before it: start of the next line
     exp = R.line_col(s, off)
+    if R.inside_crlf(s, off):
+        ctx.count("offsets_inside_a_crlf_pair")
     ctx.count("get_location_vs_R2")
     try:
         a = source.get_location(off)
@@ -142,6 +143,18 @@ def check_syntax_error(ctx, s, rng, case, flags=None):
         ctx.violation("syntax-error-location", {"text": s, "position": pos, "reported": [tuple(l) for l in err.locations], "true": exp}, case)
         return True
     check_rendering(ctx, err, s, pos, name, lo, case)
+    if rng.random() < 0.5:
+        # the same text under another configured offset, rendered in the same process, and the first one once more:
+        # what is rendered must depend on the Source it belongs to, not on what was rendered before
+        lo2 = (rng.choice(OFFS), rng.choice([o for o in OFFS if o != lo[1]] or OFFS))
+        try:
+            parse(Source(s, name, SourceLocation(*lo2)), **(flags or {}))
+        except GraphQLSyntaxError as e2:
+            ctx.count("same_text_rendered_under_two_offsets")
+            check_rendering(ctx, e2, s, e2.positions[0], name, lo2, {**case, "second_offset": lo2})
+            check_rendering(ctx, err, s, pos, name, lo, {**case, "rendered_again_after_offset": lo2})
+        except Exception:  # noqa: BLE001
+            pass
     return True
 
 
